@@ -131,6 +131,7 @@ type Engine struct {
 	unwrittenGlobals                              map[int]string
 	nowSeq                                        int
 	ambiguousInput                                string
+	mapOrderSeq                                   int
 	forkSites                                     map[string]int
 	rangeConds                                    map[*Term]*Term
 	feasQueries                                   int
@@ -830,7 +831,17 @@ func (e *Engine) exec(st *State, f *Frame, in ssa.Instruction) (action, []*State
 		a := e.get(st, f, x.X)
 		switch v := a.(type) {
 		case MapRef:
-			id := e.alloc(st, IterObj{m: v.obj, idx: b.BV(64, 0), s: e.nilSlice(true)})
+			io := IterObj{m: v.obj, idx: b.BV(64, 0), s: e.nilSlice(true)}
+			if e.cfg != nil && e.cfg.MapOrder && v.obj != 0 {
+				// Go leaves the iteration order of a map unspecified: a fresh engine-internal boolean picks
+				// first-to-last or last-to-first for this range statement
+				if mo, ok := e.objVal(st, v.obj).(MapObj); ok && len(mo.entries) > 1 {
+					e.mapOrderSeq++
+					io.rev = e.declScalar(fmt.Sprintf("map.order@%d", e.mapOrderSeq), 0)
+					io.n = len(mo.entries)
+				}
+			}
+			id := e.alloc(st, io)
 			f.locals[x] = IterRef{id}
 		case SliceV:
 			id := e.alloc(st, IterObj{m: 0, s: v, idx: b.BV(64, 0)})
